@@ -4,6 +4,7 @@ use anyhow::{bail, Result};
 use serde_json::Value;
 
 pub mod sys;
+pub mod prop;
 pub mod c01;
 pub mod c02;
 pub mod c03;
